@@ -226,21 +226,14 @@ VoteOfPre(p, round) ==
   [who |-> IF p.claims >= 1 THEN p.claims ELSE 1,
    idx |-> "ok", addr |-> "ok", size |-> "ok", h |-> p.h, r |-> IF p.rnd = round THEN "ok" ELSE "bad", t |-> p.t,
    sig |-> IF p.signer = p.claims /\ p.sig = "ok" THEN "ok" ELSE "bad", block |-> p.block, rel |-> "exact"]
-RECURSIVE ReconstructLoop(_, _, _, _, _)
-ReconstructLoop(P, c, s, round, k) ==
-  IF k > Len(c) THEN s.maj23 # NoBlock
-  ELSE IF c[k] = Absent THEN ReconstructLoop(P, c, s, round, k + 1)
-  ELSE LET r == AddVoteF(P, s, VoteOfPre(c[k], round)) IN
-       IF ~r.added \/ r.err # "none" THEN FALSE
-       ELSE ReconstructLoop(P, c, r.s, round, k + 1)
-Reconstruct(P, c) == Len(c) = Len(P) /\ ReconstructLoop(P, c, EmptySet(Len(P)), FirstPresent(c).rnd, 1)
-\* the majority block the reconstruction ends with (NoBlock if it fails)
+\* (the loop returns the majority block the reconstruction ends with, NoBlock if it fails)
 RECURSIVE ReconstructMaj(_, _, _, _, _)
 ReconstructMaj(P, c, s, round, k) ==
   IF k > Len(c) THEN s.maj23
   ELSE IF c[k] = Absent THEN ReconstructMaj(P, c, s, round, k + 1)
   ELSE LET r == AddVoteF(P, s, VoteOfPre(c[k], round)) IN
        IF ~r.added \/ r.err # "none" THEN NoBlock ELSE ReconstructMaj(P, c, r.s, round, k + 1)
+Reconstruct(P, c) == IF Len(c) = Len(P) THEN ReconstructMaj(P, c, EmptySet(Len(P)), FirstPresent(c).rnd, 1) ELSE NoBlock
 
 (* ---- the commit lattice ---------------------------------------------------- *)
 (* Per-slot alternatives.  B is the block id the verifier asks about, O another   *)
@@ -306,7 +299,7 @@ CheckCommit(kinds, extra, hOK) ==
      IN last' = [op |-> "commit", kinds |-> kinds, extra |-> extra, hOK |-> hOK, bid |-> B, other |-> O,
                  verify |-> VerifyCommit(pw, c, B, hOK),
                  verifyOther |-> VerifyCommit(pw, c, O, hOK),
-                 reconstruct |-> IF extra = 0 /\ hOK THEN ReconstructMaj(pw, c, EmptySet(N), FirstPresent(c).rnd, 1) ELSE NoBlock,
+                 reconstruct |-> IF extra = 0 /\ hOK THEN Reconstruct(pw, c) ELSE NoBlock,
                  committed |-> Committed(pw, c, B, hOK), clean |-> Clean(c)]
   /\ UNCHANGED <<pw, vs>>
 
